@@ -1,3 +1,5 @@
+# -fno-tree-slp-vectorize: g++ 12.2 -O2 drops a double->float->double round trip on 2-element arrays (SLP
+# vectorizer bug, reproduced in isolation); vectorization never changes IEEE results otherwise.
 # Build of the verification harnesses. Every harness depends on the smooth headers through -MMD
 # dependency files, so any edit under $(REPO)/include rebuilds exactly the affected harnesses.
 ROOT  := $(dir $(abspath $(lastword $(MAKEFILE_LIST))))
@@ -5,7 +7,7 @@ ROOT  := $(ROOT:/=)
 REPO  ?= /repo
 B     := $(ROOT)/build
 CXX   := g++
-BASE  := -std=c++20 -O2 -DNDEBUG -pthread -I$(ROOT)/mc -I$(B)/gen -I$(REPO)/include -isystem /usr/include/eigen3 -MMD -MP -fno-access-control -Wno-deprecated-declarations
+BASE  := -std=c++20 -O2 -DNDEBUG -pthread -I$(ROOT)/mc -I$(B)/gen -I$(REPO)/include -isystem /usr/include/eigen3 -MMD -MP -fno-access-control -fno-tree-slp-vectorize -Wno-deprecated-declarations
 
 CHECKS := $(notdir $(wildcard $(ROOT)/checks/C*))
 
@@ -32,7 +34,7 @@ define CHECK_RULES
 $(B)/$(1)/main.o: $(ROOT)/mc/main.cpp $(ROOT)/mc/mc.hpp
 	@mkdir -p $$(dir $$@)
 	$(CXX) -std=c++20 -O2 -I$(ROOT)/mc -DMC_PID='"$(1)"' -c $$< -o $$@
-$(B)/$(1)/%.o: $(ROOT)/checks/$(1)/%.cpp $(B)/gen/smooth/version.hpp
+$(B)/$(1)/%.o: $(ROOT)/checks/$(1)/%.cpp $(B)/gen/smooth/version.hpp $(ROOT)/Makefile
 	@mkdir -p $$(dir $$@)
 	$(CXX) $(BASE) $$(FLAGS_$(1)) -c $$< -o $$@
 $(B)/$(1)/run: $(B)/$(1)/main.o $(B)/mc.o $$(patsubst $(ROOT)/checks/$(1)/%.cpp,$(B)/$(1)/%.o,$$(wildcard $(ROOT)/checks/$(1)/*.cpp))
